@@ -101,6 +101,7 @@ fn sequential_differential(iter_seed: u64, r: &mut Rng, rep: &mut ShardReport) {
     let mut ops: Vec<String> = Vec::new();
     let mut sig = Fnv::default();
     let mut lifecycle_events = 0u64;
+    let mut touch_of_destroyed = 0u64;
     let mut fail: Option<String> = None;
     let n_blocks = r.range(1, 4) as usize;
     let per_block = case.txs.len().div_ceil(n_blocks);
@@ -121,9 +122,16 @@ fn sequential_differential(iter_seed: u64, r: &mut Rng, rep: &mut ShardReport) {
                     fail = Some(format!("tx {i}: finalized journal state over ParallelState differs: {d}"));
                     break 'outer;
                 }
-                for acc in da.values() {
+                for (addr, acc) in da.iter() {
                     if acc.kind != crate::compare::DeltaKind::Updated {
                         lifecycle_events += 1;
+                    }
+                    if acc.kind == crate::compare::DeltaKind::Deleted &&
+                        evm_a.ctx.journaled_state.database.cache.accounts.get(addr).is_some_and(|c| {
+                            matches!(c.status, revm_database::AccountStatus::Destroyed | revm_database::AccountStatus::DestroyedAgain)
+                        })
+                    {
+                        touch_of_destroyed += 1;
                     }
                 }
                 sig.add(da.len() as u64);
@@ -267,6 +275,7 @@ fn sequential_differential(iter_seed: u64, r: &mut Rng, rep: &mut ShardReport) {
     rep.bump("sequential_histories", 1);
     rep.bump("sequential_ops", ops.len() as u64);
     rep.bump("lifecycle_events_destroy_create_emptytouch", lifecycle_events);
+    rep.bump("deletions_of_already_destroyed_accounts", touch_of_destroyed);
     if let Some(msg) = fail {
         rep.findings.push(finding("PSTATE", msg, iter_seed, serde_json::json!({"case": case.summary(), "ops": ops})));
         return;
